@@ -9,6 +9,10 @@ PROPS['C11'] = dict(
     not_covered=['idempotence is proved on character sequences; that re-segmenting the output string yields the same characters is an assumption about grapheme segmentation'],
     assumptions=['domain of the property: no character mixes whitespace and non-whitespace code points (then str::trim is the identity on non-whitespace characters)', 'itertools filter/join semantics (vt_filter_join)'],
     domain=[],
+    input_search=True,
+    bounded_probe=dict(label='clean/word_boundaries/remove/full(string-level)', file='src/text.rs', line=14,
+                       what='the statement at STRING level against std split_whitespace and an independent character segmentation: clean == words joined by single spaces, no leading/trailing/consecutive/non-space whitespace, non-whitespace characters preserved, idempotent; word_boundaries == character ranges of the words; remove / full',
+                       bound='texts of at most 4 pieces from {a, b, space, tab, U+00A0, U+3000, U+200B, U+000B, CRLF, U+00E4, e+U+0301}; grapheme mode: unmixed clusters'),
 )
 
 PROPS['C04'] = dict(
@@ -19,6 +23,9 @@ PROPS['C04'] = dict(
     not_covered=['get_vocab (BTreeMap built from iterator chains): vocab_at stands for it', 'the constructors (Vocab::build, BPETokenizer::new, new_base_tokenizer) that establish the invariant: itertools/regex/file loading', 'pad/prefix/suffix ids inside the special range follow from the assumed invariant, not from verified constructor code'],
     assumptions=['std HashMap model (obeys_key_model for String, Vec<u8>, Token) and Borrow-lookups (String/str, Vec<u8>/[u8])', 'ToBytes/FromBytes impls are mutually inverse (tok_bytes injective)', 'UTF-8 encoding injective; a String is determined by its characters'],
     domain=[],
+    bounded_probe=dict(label='tokenizers(public-API)', file='src/tokenization.rs', line=626,
+                       what='the statement for byte, character and BPE tokenizers built through their public constructors (Vocab::build, new_base_tokenizer, BPETokenizer::new with small merge tables): get_vocab has vocab_size entries, id_to_token / token_to_id agree with it for every id up to vocab_size + 8',
+                       bound='the small input space enumerated by the probe (see rac/mod.rs, mod c04::search); cases are not counted for this older probe'),
 )
 
 PROPS['C16'] = dict(
@@ -28,6 +35,10 @@ PROPS['C16'] = dict(
     not_covered=['windows::count_until (one itertools::fold_while expression): assumed contract, a change inside it is not detected', 'text::possible_*_substrings (same index arithmetic, not under contract)'],
     assumptions=['CharString::new establishes wf (cluster lengths >= 1, sum == byte length, boundaries are char boundaries)', 'str slicing at cluster boundaries (vt_str_slice)', 'usize::from(bool)'],
     domain=['2 * context <= usize::MAX, |s| + max <= usize::MAX'],
+    input_search=True,
+    bounded_probe=dict(label='windows(public-API)', file='src/windows.rs', line=161,
+                       what='the whole statement through windows::windows for all three window kinds with an independent character/byte offset table (includes count_until and the dispatcher): tiling in characters and bytes, contexts contain their windows and respect the maximum, reported string == context slice, byte boundaries denote the character boundaries, errors only for impossible configurations / characters that cannot fit, no panic, termination (5 s deadline)',
+                       bound='non-empty texts of at most 5 pieces from {a, U+00E4, U+20AC, U+1F600, e+U+0301, CRLF} (all with at most 3 code points, every 29th longer one) x 3 kinds x max in 1..=9 x context in 0..=3 x graphemes'),
 )
 
 PROPS['C10'] = dict(
@@ -37,6 +48,10 @@ PROPS['C10'] = dict(
     not_covered=['for inputs that violate the precondition (not clean / different content) only totality is verified (Ok or Err, no panic, one operation per character when Ok)'],
     assumptions=["CharString::new/chars split a string into characters whose texts concatenate to it; Character::is_whitespace is a function of the character text; ' ' is whitespace"],
     domain=[],
+    input_search=True,
+    bounded_probe=dict(label='operations/repair(string-level)', file='src/whitespace.rs', line=70,
+                       what='the statement at STRING level with an independent character segmentation (unicode_segmentation / code points), i.e. including what the CharString model assumes: round trip for clean pairs, repair changes only whitespace for every operation sequence, all-Keep identity, length mismatch is an error',
+                       bound='texts of at most 5 pieces from {a, b, space, U+00E4, e+U+0301, U+3000} (grapheme mode: unmixed clusters, as the quantifier says); all clean pairs with equal content; every operation sequence for texts of at most 4 characters plus two wrong lengths'),
 )
 
 PROPS['C14'] = dict(
@@ -65,6 +80,10 @@ PROPS['C18'] = dict(
     not_covered=['str_match_fn (two closures of different types in an if/else): assumed to be word equality', 'the splitters themselves: words_by(0,.) = str::split_ascii_whitespace and words_by(1,.) = str::split_whitespace are uninterpreted; the contract requires that ONE of them is used for both texts'],
     assumptions=['std max_by returns the last maximum', 'HashSet idioms of edited_words (vt_set_*)'],
     domain=[],
+    input_search=True,
+    bounded_probe=dict(label='match_words/edited_words(public-API)', file='src/text.rs', line=155,
+                       what='the whole statement through match_words / edited_words against a reference LCS (includes str_match_fn and the splitter): strictly increasing pairs of equal words, LCS length, word counts, edited words == complement',
+                       bound='pairs of sentences of at most 4 words from {a, A, b, ab, U+0130, i+U+0307} (all short pairs, every 53rd long one; also with a non-ASCII whitespace as first separator) x ignore_case; the oracle accepts ASCII or Unicode word splitting, the same for both texts'),
 )
 
 PROPS['C12'] = dict(
@@ -77,6 +96,9 @@ PROPS['C12'] = dict(
     not_covered=['edit::distances (zip/map closure)', 'normalised prefix_distance with an empty `a` (0/0) is outside the statement'],
     assumptions=['CharString::new/chars/len', 'std min_by returns the first minimum', 'f64 casts and division are IEEE (the ghost integer view of floats: vt_f64 / vt_fdiv)'],
     domain=['(|a|+1) * (|b|+1) <= usize::MAX'],
+    bounded_probe=dict(label='distance/operations(public-API)', file='src/edit.rs', line=180,
+                       what='distance == reference DP written from the statement, operations is a script of that length that turns a into b, for all flag combinations',
+                       bound='the small input space enumerated by the probe (see rac/mod.rs, mod c12::search); cases are not counted for this older probe'),
 )
 
 PROPS['C07'] = dict(
@@ -87,6 +109,9 @@ PROPS['C07'] = dict(
     not_covered=['weighted strategy is reproducible from the seed (determinism of ChaCha8Rng is assumed, not verified)', 'MultiTrainDataGenerator::new establishing the invariant'],
     assumptions=['iterator contract of the boxed sources (next pops the head; None iff empty, fused)', 'rand: sample returns an index of the weight vector; WeightedIndex::new succeeds on non-empty positive weights'],
     domain=['at least one source'],
+    bounded_probe=dict(label='generator(public-API)', file='src/data/loading.rs', line=273,
+                       what='every item exactly once, per-source order, strategy order, termination (5 s deadline) through MultiTrainDataGenerator::new',
+                       bound='the small input space enumerated by the probe (see rac/mod.rs, mod c07::search); cases are not counted for this older probe'),
 )
 
 PROPS['C06'] = dict(
@@ -96,6 +121,10 @@ PROPS['C06'] = dict(
     not_covered=['Batched::build_batch sort / shuffle / prefetch glue (sort_by_key, shuffle(rng), splice, closure capturing &mut buf): partition and seed-determinism for sorted/shuffled mode', 'completeness / right-maximality of find_subsequences_of_max_size_k'],
     assumptions=['ItemSize::size is a pure function of the item', 'Vec of a non-zero-sized type has at most isize::MAX elements'],
     domain=['batch_from: item sizes in [1, smax] with (limit + 2) * smax <= usize::MAX (machine arithmetic of count * max size); zero-size items are outside the verified domain'],
+    input_search=True,
+    bounded_probe=dict(label='batched(public-API)', file='src/data/loading.rs', line=516,
+                       what='the whole statement through BatchedIterator::batched, INCLUDING Batched::build_batch (sort / shuffle / prefetch glue) that no contract reaches: partition, no empty batch, limit for multi-item batches, termination (5 s deadline), determinism in the seed; without sort and shuffle: input order and greedy maximality',
+                       bound='every size sequence of length <= 3 and every second one of length 4 over {0,1,3,9} plus four longer ones x sort x shuffle x prefetch in {0,2} x limit in {0,1,4,9,16} x {BatchSize, PaddedItemSize} x seeds'),
 )
 
 PROPS['C15'] = dict(
@@ -111,6 +140,9 @@ PROPS['C15'] = dict(
                  'rand random_range(a..b) returns a value in the range and panics on an empty range'],
     domain=['excluded positions lie inside the word (maintained by a chain of edit_word calls: postcondition `within`)', 'table entries can be sampled (non-empty edits, weights accepted by WeightedIndex)',
             'ReplaceEdits::get_edits: non-empty word (documented by its expect)', 'SwapEdits::can_edit: idx < usize::MAX'],
+    bounded_probe=dict(label='edit_word(public-API)', file='src/corrupt.rs', line=112,
+                       what='the provider contexts at every position and the edit_word statement (exactly one enabled edit at a non-excluded position, re-indexed exclusion set) with fixed tables and total providers',
+                       bound='the small input space enumerated by the probe (see rac/mod.rs, mod c15::search); cases are not counted for this older probe'),
 )
 
 _F1_ATTRS = """#[cfg_attr(kani, kani::requires(tp < (1 << %(bits)d) && fp < (1 << %(bits)d) && fn_ < (1 << %(bits)d) && (beta == 0.5 || beta == 1.0 || beta == 2.0)))]
